@@ -31,7 +31,8 @@ TEXT = {"Connected": "CONNECTED", "Connecting...": "CONNECTING", "Lost contact w
 
 
 class LifecycleRun:
-    """script: list of (time, action, arg) with actions net / reset / exit; susp: dict event-name ->
+    """script: list of (time, action, arg) with actions net / reset / exit / sockfail (the next arg endpoint
+    creations raise OSError); susp: dict event-name ->
     seconds the client handler sleeps in that delivery (first occurrence after arm time)"""
 
     def __init__(self, rng, script, susp=None, rank="stable", horizon=400.0, spa_identifier="SPA01:02:03:04:05:06",
@@ -98,6 +99,10 @@ class LifecycleRun:
                 self.log.append({"k": "reset", "phase": "return"})
 
         try:
+            for (t, action, arg) in self.script:
+                if action == "sockfail" and t <= 0:
+                    loop.fail_endpoints = int(arg)
+                    loop.on_endpoint_fail = lambda kw: self.log.append({"k": "sockfail"})
             s.enter()
             for (t, action, arg) in self.script:
                 if t > loop.time():
@@ -110,6 +115,9 @@ class LifecycleRun:
                     if mode != getattr(self, "_mode", "ok"):
                         self.log.append({"k": "net", "mode": mode})
                     self._mode = mode
+                elif action == "sockfail":
+                    loop.fail_endpoints = int(arg)
+                    loop.on_endpoint_fail = lambda kw: self.log.append({"k": "sockfail"})
                 elif action == "reset":
                     if any(not r.done() for r in resets):
                         continue        # the model has one user
